@@ -840,6 +840,27 @@ func (fr *Frame) localsAt(h *ssa.BasicBlock, pidx int) (map[string]func(*State) 
 			}
 		}
 	}
+	// named phis of dominating blocks (e.g. the result of an earlier loop)
+	for _, b := range fr.fn.Blocks {
+		if b == h || !b.Dominates(h) {
+			continue
+		}
+		for _, in := range b.Instrs {
+			phi, ok := in.(*ssa.Phi)
+			if !ok {
+				break
+			}
+			if phi.Comment == "" || strings.HasPrefix(phi.Comment, "range") {
+				continue
+			}
+			if sv, known := fr.vals[phi]; known {
+				if li := fr.loops[b]; li != nil && li.body[h] {
+					continue // enclosing loop: handled below
+				}
+				out[phi.Comment] = func(*State) SV { return sv }
+			}
+		}
+	}
 	// header phis by comment (source name) override
 	for _, in := range h.Instrs {
 		phi, ok := in.(*ssa.Phi)
@@ -859,6 +880,33 @@ func (fr *Frame) localsAt(h *ssa.BasicBlock, pidx int) (map[string]func(*State) 
 		name := phi.Comment
 		out[name] = func(*State) SV { return sv }
 		delete(addrs, name)
+		if li := fr.loops[h]; li != nil {
+			out[fmt.Sprintf("%s_%d", name, li.ordinal)] = func(*State) SV { return sv }
+		}
+	}
+	// phis of enclosing loop headers, addressable as <name>_<loop ordinal>
+	for oh, li := range fr.loops {
+		if oh == h || !oh.Dominates(h) || !li.body[h] {
+			continue
+		}
+		for _, in := range oh.Instrs {
+			phi, ok := in.(*ssa.Phi)
+			if !ok {
+				break
+			}
+			if phi.Comment == "" {
+				continue
+			}
+			sv, known := fr.vals[phi]
+			if !known {
+				continue
+			}
+			n := fmt.Sprintf("%s_%d", phi.Comment, li.ordinal)
+			out[n] = func(*State) SV { return sv }
+			if _, dup := out[phi.Comment]; !dup {
+				out[phi.Comment] = func(*State) SV { return sv }
+			}
+		}
 	}
 	return out, addrs
 }
